@@ -199,3 +199,45 @@ func VerifC12_EmptyKeepsTheGenerator() {
 		}
 	})
 }
+
+// The generator is per topic, so "no two messages of a topic share an id" also needs ONE Topic
+// object per topic name: two publishers racing on the FIRST publish to a new topic go through the
+// real NSQD.GetTopic (check, then create under the write lock) and then take an id each - every
+// interleaving within the preemption bound. Both get the same Topic (so the same generator), the
+// topic map holds exactly that one, and their ids differ. (Run for C01 as well: a publisher that
+// was handed an orphaned second Topic object would be acknowledged for messages no channel of
+// the registered topic ever sees.)
+func VerifC12_RacingFirstPublishersShareOneGenerator() { verifRacingGetTopic() }
+
+func verifRacingGetTopic() {
+	o := verifOpts()
+	o.ID = 1023
+	n := verifShellNSQD(o)
+	// all readings within ONE tick (2^20 ns) of the generator: two generators then hand out the
+	// SAME id (what the race causes whenever both publishes fall into one tick), one generator
+	// two different ones
+	verifrt.ClockRange((1700000000000000000>>20)<<20, (1700000000000000000>>20)<<20+1<<20)
+	verifrt.Preemptions(verifrt.Bound("racing-get-topic-preemptions", 1, 2))
+	verifrt.StubNative("(*github.com/nsqio/nsq/nsqd.NSQD).Notify", verifNotifyNop)
+	var ta, tb *Topic
+	var a, b MessageID
+	verifrt.Go("pub-a", func() { ta = n.GetTopic("t") })
+	verifrt.Go("pub-b", func() { tb = n.GetTopic("t") })
+	verifrt.Join()
+	// (the ids are taken once both have their topic: concurrent use of ONE generator is
+	// VerifC12_ConcurrentFirstPublishers; two generators hand out equal ids at equal instants)
+	verifrt.Atomic(func() { a = ta.GenerateID(); b = tb.GenerateID() })
+	verifrt.Assert(ta == tb, "racing-first-publishers-get-the-same-topic-object")
+	n.RLock()
+	reg, k := n.topicMap["t"], len(n.topicMap)
+	n.RUnlock()
+	verifrt.Assert(k == 1 && reg == ta && reg == tb, "the-topic-map-holds-the-topic-both-publishers-use")
+	verifrt.Assert(a != b, "racing-first-publishers-get-distinct-ids")
+	verifrt.Reach("both-publishers-served", ta != nil && tb != nil && a != b)
+	if !verifrt.Symbolic() {
+		ta.Close()
+		if tb != ta {
+			tb.Close()
+		}
+	}
+}
